@@ -108,6 +108,14 @@ RunTicks(atLast, counter, n, budget, cancel) ==
 
 ProbeLoopTicks == 1502      \* def _p(n): for i in range(n): pass ; _p(1500) : the call, range(), 1500 iterations
 
+(* The probe evaluations themselves need call depth (the module frame, the function, the native call
+   inside it): with a very small stack they end in the depth error too, whatever happened before.
+   Sem runs them under the same stack size; the long probe's depth failure, if any, comes before its
+   loop starts, so a short loop decides it. *)
+Probe1Prog == <<SEmit(AInt(1))>>
+Probe2Prog(k) == <<SDef("_p", <<P("n")>>, <<SFor(TVar("i"), ACall(AVar("range"), <<N_n>>), <<SPass>>)>>),
+                   SExpr(ACall(AVar("_p"), <<AInt(k)>>))>>
+
 (* c: [t, n, cap, budget (0: none), cancel (0: none)] *)
 Expect(c) ==
     LET prog == Prog(c)
@@ -121,10 +129,13 @@ Expect(c) ==
         endCancel == c.cancel # 0 /\ m.tk >= c.cancel
         endTicks == c.budget # 0 /\ m.tk > c.budget
         k2 == IF m.err.kind # "" THEN m.err.kind ELSE IF endCancel THEN "cancelled" ELSE IF endTicks THEN "ticks" ELSE ""
+        d1 == RunWith(Probe1Prog, c.cap, 0, "ticks")
+        d2 == RunWith(Probe2Prog(2), c.cap, 0, "ticks")
     IN [kind |-> k2, out |-> m.out, total |-> m.tk, maxd |-> m.maxd,
         \* after the error the evaluator is reusable: what a trivial second evaluation must give
         \* (`emit(1)`: one more tick on the same, cumulative, counter)
-        probe |-> IF c.cancel # 0 /\ m.tk + 1 >= c.cancel THEN "cancelled"
+        probe |-> IF d1.err.kind = "depth" THEN "depth"
+                  ELSE IF c.cancel # 0 /\ m.tk + 1 >= c.cancel THEN "cancelled"
                   ELSE IF c.budget # 0 /\ m.tk + 1 > c.budget THEN "ticks" ELSE "",
         \* and a LONG second evaluation (more than one check interval): where must it stop?
         probe2 |-> LET periodic == m.err.kind \in {"ticks", "cancelled"}       \* main failed in a periodic check
@@ -132,7 +143,8 @@ Expect(c) ==
                        ct0 == IF periodic THEN Period ELSE m.tk % Period
                        p1 == RunTicks(al0, ct0, 1, c.budget, c.cancel)            \* the first probe: emit(1)
                        p2 == RunTicks(p1.atLast, p1.counter, ProbeLoopTicks, c.budget, c.cancel)
-                   IN [kind |-> p2.kind, total |-> p2.total]]
+                   IN IF d2.err.kind = "depth" THEN [kind |-> "depth", total |-> m.tk + d1.tk + d2.tk]
+                      ELSE [kind |-> p2.kind, total |-> p2.total]]
 
 CONSTANT Tier
 Sizes == IF Tier = "quick" THEN {997, 998} ELSE {995, 996, 997, 998, 999, 1000, 1995, 1996, 1997, 1998, 2996}
